@@ -114,8 +114,9 @@ func Main() {
 	r.Assume("validator-set changes in the replica groups are synthetic: the list the application returns is replaced, identically on all replicas but in replica-specific order, by rescaled/reduced genesis validators")
 
 	r.Cases("valset", r.N(300, 20000), core.Opts{Workers: 16}, valsetCase)
-	r.Cases("corpus", len(presets()), core.Opts{Workers: 8}, corpusCase)
-	r.Cases("replicas", r.N(20, 1500), core.Opts{Workers: 16}, replicaCase)
+	// chain-executing groups run in child processes: a crash inside a node's background goroutine is then attributed
+	r.Cases("corpus", len(presets()), core.Opts{Procs: 2, Workers: 5, StallSec: 600}, corpusCase)
+	r.Cases("replicas", r.N(20, 1500), core.Opts{Procs: 4, Workers: 4, StallSec: 600}, replicaCase)
 
 	// fresh child processes (different map hash seeds, cold caches): two groups run the same case list
 	if !r.IsChild() && os.Getenv("VERIF_ONLY_CASE") == "" {
@@ -165,6 +166,8 @@ func Main() {
 	r.Floor("blocks_with_logs", 10)
 	r.Floor("comparisons_with_reopened_replica", 10)
 	r.Floor("validator_set_changes", 3)
+	r.Floor("validator_set_changes_through_staking_txs", 2)
+	r.Floor("corpus_scenarios", int64(len(presets())))
 	r.Floor("repeat_heights_compared:in-process-repeat", 5)
 	r.Floor("network_heights_with_txs", 3)
 	r.Finish()
